@@ -117,6 +117,14 @@ def check(ctx):
                 if len(x.stack) > depth and x.kind in ("REGADDR", "REGTOPCALL", "LOOKUP", "LOOP"):
                     if x.kind != "LOOP" or any(isinstance(s, tuple) and s[:1] == ("regtop",) for s in subterms(x.a.get("iter") or ())):
                         reads.append(x)
+        # the counter is shared by every address of the factory, so the scan has to look at every address: a registry consulted for
+        # one address only (registry[addr]) leaves the requests of the other addresses out
+        for x in reads:
+            if x.kind == "REGADDR":
+                ctx.ob("ID-INUSE", "%s looks at every address of %s" % (short(fq), x.a["reg"]), False, where=where(x), function=x.func,
+                       construct="%s/one-address/%s" % (x.func, x.a["reg"]),
+                       msg="the in-use scan reads %s only for the address %s: the identifier counter is shared by all addresses of the factory, "
+                           "so an identifier still in use on another address is handed out again" % (x.a["reg"], show(x.a["key"])))
         # how the in-use test looks at each registry: a keyed window may be tested by membership of the identifier, a sequence of
         # request objects (the hold-back queue) must be searched by the requests' identifiers
         seq_regs = set()
